@@ -6,7 +6,8 @@
 (* enumerates function x template of its class x shape x dtype x seed and      *)
 (* reports catalogue entries the specification has no template for.           *)
 EXTENDS ArrayFnNumCat, Json, IOUtils, Integers
-CONSTANTS Seeds, DTs, ShAll, InLays, OutLays, KwKinds, KwShapes, KwDC
+CONSTANTS Seeds, DTs, ShAll, InLays, OutLays, KwKinds, KwShapes, KwDC,
+          AliasCombos   \* {<<alias, data class>>}: "N" = no aliasing
 Cat == JsonDeserialize(IOEnv.CAT)
 Names(k) == {Cat[k][j] : j \in 1..Len(Cat[k])}
 Catalogue == Names("handled") \cup Names("unsupported") \cup Names("default") \cup Names("methods") \cup Names("extra")
@@ -17,14 +18,26 @@ KindOfFn(fn) == IF fn \in Names("handled") THEN "handled" ELSE IF fn \in Names("
 SigKw(fn) == (IF fn \in DOMAIN Cat.sig THEN {Cat.sig[fn][j] : j \in 1..Len(Cat.sig[fn])} ELSE {}) \cup DocKw(fn)
 VARIABLE c
 Init == c = <<>>
-Case(g, fn, t, sh, dt, sd, li, lo, kw, kv, dc) ==
+CaseX(g, fn, t, sh, dt, sd, li, lo, kw, kv, dc, rk, al) ==
   [layer |-> "C", fn |-> fn, cls |-> Groups[g].cls, t |-> t, sh |-> sh, dt |-> dt, sd |-> sd, kind |-> KindOfFn(fn),
-   li |-> li, lo |-> lo, tg |-> HasTarget(Groups[g].cls, t), kw |-> kw, kv |-> kv, dc |-> dc]
+   li |-> li, lo |-> lo, tg |-> HasTarget(Groups[g].cls, t), kw |-> kw, kv |-> kv, dc |-> dc, rk |-> rk, al |-> al]
+Case(g, fn, t, sh, dt, sd, li, lo, kw, kv, dc) == CaseX(g, fn, t, sh, dt, sd, li, lo, kw, kv, dc, 0, "N")
+\* named combos for the cfgs
+CombosQuick == {<<"S", "plain">>, <<"S", "nan">>, <<"S", "inf">>, <<"S", "nz">>, <<"V", "nan">>, <<"N", "nan">>, <<"N", "nz">>}
+CombosAll == ((Aliases \cup {"N"}) \X (SpecialDC \cup {"plain"})) \ {<<"N", "plain">>}
 Next == /\ c = <<>>
         /\ \/ \E g \in GroupIdx : \E fn \in Groups[g].fns \cap Catalogue, t \in Groups[g].t, dt \in DTs, sd \in Seeds,
                  sh \in (IF Groups[g].sv THEN ShAll ELSE {"-"}), li \in InLays :
                  \E lo \in (IF HasTarget(Groups[g].cls, t) THEN OutLays ELSE {"C"}) :
                     c' = Case(g, fn, t, sh, dt, sd, li, lo, "", "", "plain")
+           \* input rank above the natural rank (templates without a target)
+           \/ \E g \in GroupIdx : \E fn \in Groups[g].fns \cap Catalogue, t \in {x \in Groups[g].t : ~HasTarget(Groups[g].cls, x)}, dt \in DTs,
+                 sd \in Seeds, sh \in (IF Groups[g].sv THEN ShAll ELSE {"-"}) :
+                    c' = CaseX(g, fn, t, sh, dt, sd, "C", "C", "", "", "plain", 1, "N")
+           \* argument aliasing x special values (multi-operand classes; special values need a float type)
+           \/ \E g \in {x \in GroupIdx : Groups[x].cls \in MultiOpCls} : \E fn \in Groups[g].fns \cap Catalogue, t \in Groups[g].t,
+                 dt \in DTs, sh \in (IF Groups[g].sv THEN ShAll ELSE {"-"}), ac \in AliasCombos :
+                    (ac[2] = "plain" \/ dt # "i") /\ c' = CaseX(g, fn, t, sh, dt, 0, "C", "C", "", "", ac[2], 0, ac[1])
            \* keyword completeness: function x keyword of NumPy's signature x value class x data class, on sizes above
            \* NumPy's small-array thresholds
            \/ \E g \in GroupIdx : \E fn \in {f \in Groups[g].fns \cap Catalogue : KindOfFn(f) \in KwKinds}, dt \in DTs, dc \in KwDC,
